@@ -3,6 +3,7 @@ CONSTANTS N = 2
           OUTER = TRUE
           AFTER = TRUE
           PRE = TRUE
+          INCL = FALSE
 CHECK_DEADLOCK FALSE
 INVARIANT Emit
 INVARIANT CatchIdsUnique
